@@ -121,6 +121,9 @@ def run(ck, F, E):
     ev, store = common.edit_path_rules(ck, F, E, P)
     line_number_parser(ck, F)
     line_number_prefix(ck, F)
+    # the offset parse_line_number returns is skipped in the very string it was computed on (shared with C05/C13)
+    from props import C13
+    C13.same_text_rule(ck, F, "C04", only=("evaluate_impl",))
     if ev is not None and store is not None:
         store_iff_numbered(ck, F, ev, store)
     unconditional_store(ck, F)
